@@ -28,6 +28,10 @@ TOPO = {
     # further balls are requested by a multiball device
     'balls5': dict(switches={'bd_trough': ['s_t1', 's_t2', 's_t3'], 'bd_plunger': ['s_plunger'], 'bd_lock': ['s_lock1', 's_lock2']},
                    target={'bd_trough': 'bd_plunger', 'bd_plunger': 'pf', 'bd_lock': 'pf'}, cap='MCCap5', tgt='MCTarget5', game=True),
+    # trough and a holding lock both feed the one-slot launcher: a request with the trough empty is served from the hold
+    'balls6': dict(switches={'bd_trough': ['s_t1', 's_t2', 's_t3'], 'bd_plunger': ['s_plunger'], 'bd_lock': ['s_lock1', 's_lock2']},
+                   target={'bd_trough': 'bd_plunger', 'bd_plunger': 'pf', 'bd_lock': 'bd_plunger'}, cap='MCCap6', tgt='MCTarget6',
+                   holding=['bd_lock'], sourcing=['bd_lock']),
 }
 _H = {}
 
@@ -52,6 +56,7 @@ class World:
         self.HOLDING = TOPO[topo].get('holding', [])
         self.GAME = bool(TOPO[topo].get('game'))
         self.released = {}             # holding device -> released balls that have not left yet
+        self.since = {}                # ball -> time it came to rest where it is
         self.want = 0
 
     def mpf(self):
@@ -93,7 +98,12 @@ class World:
         same = len([1 for d2 in self.fired if d2 != dev and self.TG[d2] == tgt])
         back = len([1 for p in self.loc.values() if isinstance(p, tuple) and p[0] == 'transit' and p[3] == 'back' and p[1] == tgt])
         sitting = len(self.at(tgt)) if tgt != 'pf' else 0
-        self.log(op='fire', d=dev, _rolling=rolling, _same=same, _back=back, _sitting=sitting, _tfired=int(tgt in self.fired))
+        # was the request this fire serves made after the rolling ball had left its source (MPF then knew about the ball when
+        # it decided), or was it pending before (the decision raced with the other eject)?
+        last_req = max([i for i, e in enumerate(self.ev) if e['op'] == 'request'] or [-1])
+        last_leave = max([i for i, e in enumerate(self.ev) if e['op'] == 'leave' and e['d'] != dev and self.TG[e['d']] == tgt] or [-1])
+        late_req = int(rolling > 0 and last_req > last_leave)
+        self.log(op='fire', d=dev, _rolling=rolling, _same=same, _back=back, _sitting=sitting, _tfired=int(tgt in self.fired), _latereq=late_req)
         self.fired.add(dev)
         q = self.outcomes.get(dev) or []
         kind = q.pop(0) if q else 'ok'
@@ -126,6 +136,7 @@ class World:
         _, src, dst, kind = self.loc[b]
         place = dst if kind == 'ok' else src
         self.loc[b] = place
+        self.since[b] = self.loop.time()
         if place == 'pf':
             self.m.switch_controller.process_switch('s_pf', 1, logical=True)
             self.m.switch_controller.process_switch('s_pf', 0, logical=True)
@@ -186,6 +197,8 @@ class World:
     def release(self, dev):
         if dev not in self.HOLDING or dev in self.fired or self.released.get(dev) or not self.at(dev) or self.room(dev) != self.CAP[dev] - len(self.at(dev)):
             return
+        if any(self.loop.time() - self.since.get(b, 0) < 3.0 for b in self.at(dev)):
+            return      # a ball that has only just arrived is not held yet (count stabilisation): nothing to release
         self.released[dev] = len(self.at(dev))
         self.want += len(self.at(dev))
         self.log(op='release', d=dev)
@@ -269,7 +282,7 @@ def _exec(sched, seed, topo):
             h.advance_time_and_run(secs)
             pending = int(m.playfield.num_balls_requested)
             idle = all(m.ball_devices[d].state == 'idle' for d in DEVS)
-            held = sum(len(w.at(d)) for d in w.HOLDING)
+            held = sum(len(w.at(d)) for d in w.HOLDING if d not in TOPO[topo].get('sourcing', []))
             w.log(op='rest', known=int(m.ball_controller.num_balls_known), idle=bool(idle), pending=pending,
                   states=[str(m.ball_devices[d].state) for d in DEVS], _over=len(w.at('pf')) - min(w.want, 3 - held),
                   _phys=dict({d: len(w.at(d)) for d in DEVS}, pf=len(w.at('pf'))))
@@ -334,11 +347,12 @@ CONSTANTS
   Shootable = {"bd_lock"}
   Escapable = {}
   Holding = {%s}
+  Sourcing = {%s}
   EntranceCounted = {%s}
   Saved = %s
   MaxOps = %d
 %sCHECK_DEADLOCK FALSE
-""" % (spec, t['cap'], t['tgt'], ', '.join('"%s"' % d for d in t.get('holding', [])),
+""" % (spec, t['cap'], t['tgt'], ', '.join('"%s"' % d for d in t.get('holding', [])), ', '.join('"%s"' % d for d in t.get('sourcing', [])),
        ', '.join('"%s"' % d for d in t.get('entrance', {})), 'TRUE' if t.get('game') else 'FALSE', maxops, extra)
 
 
@@ -367,6 +381,9 @@ def handmade():
         # (game topology) two balls in play drain within the ball save's eject delay; a third is added meanwhile
         [R, AF(R, 'arrive', 'pf'), AF(D, 'arrive', 'pf'), D, R, D],
         [R, AF(R, 'arrive', 'pf'), AF(R, 'arrive', 'pf'), AF(D, 'arrive', 'pf'), D, D, S, D],
+        # (holding lock feeding the launcher) all balls out, two get held, a further request can only come from the hold
+        [R, R, R, AF(S, 'arrive', 'pf'), S, R, D, D],
+        [R, R, R, AF(S, 'arrive', 'pf'), D, S, R, R, D],
         [R, D, R, R, D, D],
         [R, L('bd_trough', 'back'), L('bd_plunger', 'back'), R, D],
         [R, N('bd_trough'), N('bd_trough'), R, S, S, D],
@@ -381,7 +398,7 @@ def handmade():
 def run_world(ctx):
     wd = tlc.prepare(ctx.scratch, 'BallWorld', 'ballworld')
     alljobs, alltraces, rejected = [], [], {}
-    for topo in ('balls', 'balls2', 'balls3', 'balls4', 'balls5'):
+    for topo in ('balls', 'balls2', 'balls3', 'balls4', 'balls5', 'balls6'):
         with open(wd + '/MC.cfg', 'w') as f:
             f.write(cfg_text('Spec', topo, 4 if ctx.quick else 6, 'INVARIANT TypeOK\nINVARIANT NeverOverfull\n'))
         r = tlc.expect_ok(tlc.check(wd, 'BallWorldMC', 'MC.cfg', workers=8, timeout=2000), 'BallWorld design check')
@@ -416,7 +433,7 @@ def run_world(ctx):
 
 CAPS = {'balls': {'bd_trough': 3, 'bd_plunger': 1, 'bd_lock': 2}, 'balls2': {'bd_trough': 3, 'bd_plunger': 2, 'bd_lock': 2},
         'balls3': {'bd_trough': 3, 'bd_plunger': 1, 'bd_lock': 2}, 'balls4': {'bd_trough': 3, 'bd_plunger': 1, 'bd_lock': 2},
-        'balls5': {'bd_trough': 3, 'bd_plunger': 1, 'bd_lock': 2}}
+        'balls5': {'bd_trough': 3, 'bd_plunger': 1, 'bd_lock': 2}, 'balls6': {'bd_trough': 3, 'bd_plunger': 1, 'bd_lock': 2}}
 
 
 def classify(fe, topo):
@@ -440,7 +457,7 @@ def classify(fe, topo):
         # why the target has no room: a ball that left another source earlier is still rolling towards it; the target's own
         # failed eject is falling back into it; another source was fired in this same instant; the target's coil was
         # just fired (MPF counts on that eject to succeed); or balls are simply sitting in it
-        why = [n for n, k in (('ball-rolling', '_rolling'), ('ball-falling-back', '_back'), ('same-instant', '_same'),
+        why = [n for n, k in (('ball-rolling:requested-after-it-left' if fe.get('_latereq') else 'ball-rolling', '_rolling'), ('ball-falling-back', '_back'), ('same-instant', '_same'),
                               ('target-ejecting', '_tfired')) if fe.get(k, 0) > 0]
         return 'fire-at-full-target:' + ('+'.join(why) if why else 'ball-sitting')
     return 'step:%s' % fe.get('op', '?')
